@@ -364,4 +364,47 @@ def configs(tier):
     # sums / differences / scalar multiples / distributivity
     for alph in ("b1", "f2", "f3", "bs", "mixed") if tier == "quick" else ("b1", "b2", "f2", "f3", "spin", "ladder", "bf", "bs", "mixed"):
         cfgs.append(dict(alphabet=alph, lengths=[1, 2], chunk=[0, 1], checks=["sum"], sum_words=10 if tier == "quick" else 30, dist_words=5 if tier == "quick" else 10))
-    return [("vf.props.nof", "c08", c) for c in cfgs]
+    return [("vf.props.nof", "c08", c) for c in cfgs] + [("vf.props.nof", "c08_cancellation", dict(_job="cancellation"))]
+
+
+def c08_cancellation(cfg):
+    """Sums in which non-number-conserving terms cancel denote number-conserving operators: they must be recognised as such (inverse,
+    functions) and denote the right operator.  Symbolic occupation; oracle = action on the Fock state."""
+    from pymablock.number_ordered_form import NumberOperator, NumberOrderedForm
+
+    rec = Rec("C08", cfg)
+    a = BosonOp("a")
+    Na = NumberOperator(a)
+    den = Denoter([a])
+    x = (a + Dagger(a)) / sympy.sqrt(2)
+    p = sympy.I * (Dagger(a) - a) / sympy.sqrt(2)
+    cases = {
+        "harmonic_oscillator": (lambda: NumberOrderedForm.from_expr(((x * x + p * p) / 2).expand()), [(Na + sympy.Rational(1, 2))]),
+        "sum_minus_same": (lambda: (NumberOrderedForm.from_expr(a + Na + 1) - NumberOrderedForm.from_expr(a)), [(Na + 1)]),
+    }
+    for name, (build, ref_letters) in cases.items():
+        sig = f"cancellation:{name}"
+        try:
+            h = build()
+            conserving = h.is_particle_conserving()
+            inv = h ** -1
+        except Exception as e:  # noqa: BLE001
+            from .herm import library_exception_info
+
+            is_lib, where = library_exception_info(e, pure_inputs=True)
+            if not is_lib:
+                raise
+            rec.direct_violation(f"{name}: raised", sig + f":raised-{type(e).__name__}", {"exception": f"{type(e).__name__}: {e}"[:300], "where": where}, reproduced=True)
+            continue
+        if not conserving:
+            rec.direct_violation(f"{name}: not recognised as number conserving", sig + ":not-conserving", {"terms": str(dict(h.terms))[:200]}, reproduced=True)
+            continue
+        ref = den.act_word(ref_letters)
+        cl = den.clauses(den.act_expr(h.as_expr()), ref)
+        rec.oblige_clauses(f"{name}: value", cl, sig=sig + ":value", replay=lambda m: (True, {"note": "symbolic"}), cross=False)
+        ref_inv = den.act_word([ref_letters[0] ** -1])
+        cl = den.clauses(den.act_expr(inv.as_expr()), ref_inv)
+        rec.oblige_clauses(f"{name}: inverse", cl, sig=sig + ":inverse", replay=lambda m: (True, {"note": "symbolic"}), cross=False)
+    rec.nontrivial = True
+    rec.sample = {"config": cfg}
+    return rec
